@@ -132,6 +132,14 @@ func init() {
 		}
 		return nil
 	})
+	// MapOrder(n): from now on, every range over a Go map with 2..n entries iterates in a
+	// solver-chosen order (n = 0 switches back to insertion order).
+	ext("MapOrder", func(fr *frame, a []value) value {
+		n := a[0].(int)
+		theEngine.mapOrderOn = n > 0
+		theEngine.mapOrderMax = n
+		return nil
+	})
 	ext("Symbolic", func(fr *frame, a []value) value { return true })
 	ext("IsConcrete", func(fr *frame, a []value) value { return !isSym(a[0]) })
 	// TryCall(f) runs f and reports whether it panicked (Go panic escaping the code under test).
